@@ -633,7 +633,9 @@ pub fn finish(meta: &Meta, tier: Tier, seed: u64, total: Summary, wall: f64, nwo
             println!("  ... {} more violation keys (replay files are only written for the first 12)", unknown.len() - 12);
             break;
         }
-        let path = format!("{}/replays/{}-{}-{}.json", verif_dir(), meta.id, tier.name(), i);
+        // (the second engine of a property keeps its replay files apart from the first one's)
+        let engine = std::env::var("MC_EVIDENCE_APPEND_KEY").ok().filter(|k| !k.is_empty()).map(|k| format!("-{k}")).unwrap_or_default();
+        let path = format!("{}/replays/{}-{}{}-{}.json", verif_dir(), meta.id, tier.name(), engine, i);
         let r = json!({"property": meta.id, "clause": v.clause, "disc": v.disc, "count": v.count,
             "detail": v.detail, "case": v.case});
         std::fs::write(&path, serde_json::to_string_pretty(&r).unwrap()).expect("write replay");
